@@ -190,15 +190,23 @@ def main():
             else:
                 if c.get("warm"):
                     thunk()  # compile the kernels first: JIT time and memory are not the operation's
-                tracemalloc.start()
-                tracemalloc.reset_peak()
-                t0 = time.perf_counter()
-                try:
+                if c.get("untraced"):
+                    # time only: tracemalloc charges ~10 µs to every allocation, and a kernel that allocates per row (the row sort of
+                    # _dot_csr_csr) on 10^6 rows would be timed for its tracing, not for its work
+                    t0 = time.perf_counter()
                     r = thunk()
                     secs = time.perf_counter() - t0
-                    peak = tracemalloc.get_traced_memory()[1]
-                finally:
-                    tracemalloc.stop()
+                    peak = 0
+                else:
+                    tracemalloc.start()
+                    tracemalloc.reset_peak()
+                    t0 = time.perf_counter()
+                    try:
+                        r = thunk()
+                        secs = time.perf_counter() - t0
+                        peak = tracemalloc.get_traced_memory()[1]
+                    finally:
+                        tracemalloc.stop()
                 ans.update(out={"ok": rep(r, bool(c.get("want_coo")))}, peak=int(peak), secs=round(secs, 4), result_type=type(r).__name__,
                            nnz_out=int(getattr(r, "nnz", 1)), maxrss_kb=resource.getrusage(resource.RUSAGE_SELF).ru_maxrss)
         except BaseException as e:  # noqa: BLE001
